@@ -88,8 +88,14 @@ struct C09 {
   // the application asks for another mode from inside the mode-change callback of the first request (random mode): which of the two requests stands is not
   // laid down - but the mode the node reports afterwards is the mode it is in: every probe that follows is judged by it
   int nested = 0;
-  void api_mode_nested(int outer, int inner) {
+  void api_mode_nested(int outer, int inner, bool by_frame = false) {
     if (mode == M_INIT || mode == STOPPED_NODE || outer == mode) return;
+    if (by_frame) {   // the first request is the NMT master's command, the second the application's reaction to it from inside the callback
+      Exp e; e.modes_free = true; e.alt_mode = inner; bool done = false; uint8_t cs = outer == M_OP ? 1 : outer == M_STOP ? 2 : 128;
+      s.mode_change_hook = [&](int) { if (done) return; done = true; CONmtSetMode(&s.node->Nmt, (CO_MODE)inner); };
+      run("NMT command with a CONmtSetMode from inside the mode-change callback", [&]() { s.rx(Frame::mk(0, 2, {cs, s.nodeid})); }, e, outer);
+      s.mode_change_hook = nullptr; nested++; return;
+    }
     Exp e; e.modes_free = true; e.alt_mode = inner; bool done = false;
     s.mode_change_hook = [&](int) { if (done) return; done = true; CONmtSetMode(&s.node->Nmt, (CO_MODE)inner); };
     run("CONmtSetMode with another CONmtSetMode from inside the mode-change callback", [&]() { s.api_begin(); CONmtSetMode(&s.node->Nmt, (CO_MODE)outer); s.api_end("CONmtSetMode"); }, e, outer);
@@ -237,7 +243,7 @@ void case_random(Ctx &c) {
     steps++; c.ops++;
     uint32_t k = c.t.below(38);
     if (c.t.chance(20)) x.inject_send_fault = true;
-    if (k >= 36) { static const int MM[3] = {M_PREOP, M_OP, M_STOP}; int o = MM[c.t.below(3)], i = MM[c.t.below(3)]; x.inject_send_fault = false; x.api_mode_nested(o, i); continue; }
+    if (k >= 36) { static const int MM[3] = {M_PREOP, M_OP, M_STOP}; int o = MM[c.t.below(3)], i = MM[c.t.below(3)]; x.inject_send_fault = false; x.api_mode_nested(o, i, k == 37); continue; }
     if (k == 29 && !c.t.chance(40)) k = 28;                     // node stop ends all checking: keep it rare
     if (k == 30) x.nmt_cmd(c.t.byte(), c.t.coin() ? x.s.nodeid : c.t.byte());
     else if (k == 31) x.probe_hb((uint8_t[]){0, 127, 5, 4, 77}[c.t.below(5)]);
